@@ -1,7 +1,7 @@
 (* One entry point for the extracted model: [run cmd args] returns the result fields.
    The OCaml driver only splits lines, (un)escapes and converts strings. *)
-From Coq Require Import List Bool NArith String Ascii.
-From PC Require Import Base.Cmp Base.Result Model.Pep440 Spec.Pep440Spec Spec.Specifier Model.VConstraint Model.Generic Model.Marker.
+From Coq Require Import List Bool NArith ZArith String Ascii.
+From PC Require Import Base.Cmp Base.Result Model.Pep440 Spec.Pep440Spec Spec.Specifier Model.VConstraint Model.Generic Model.Marker Model.Wheel Model.Select.
 Import ListNotations.
 Open Scope string_scope.
 Open Scope N_scope.
@@ -392,6 +392,109 @@ Definition run_marker (cmd : string) (args : list string) : option (list string)
     | _ => None end
   else None.
 
+(* ---------------- wheel bookkeeping ---------------- *)
+(* ops: byte-31 separated records  A path hash size st_mode | W path hash size ; contents are represented by
+   their (digest, size) pair, which is all the bookkeeping looks at *)
+Definition wbytes := (string * N)%type.
+Fixpoint dec_wops (fuel : nat) (ts : list string) : option (list (wop wbytes)) :=
+  match fuel with
+  | O => None
+  | S f =>
+    match ts with
+    | [] => Some []
+    | tag :: p :: h :: sz :: r =>
+      match read_N (lchars sz) with
+      | Some n =>
+        if seq tag "A" then
+          match r with
+          | md :: r' => match read_N (lchars md), dec_wops f r' with
+                        | Some m, Some ops => Some (OAdd p (h, n) m :: ops)
+                        | _, _ => None end
+          | [] => None end
+        else if seq tag "W" then
+          match dec_wops f r with Some ops => Some (OWrite p (h, n) :: ops) | None => None end
+        else None
+      | None => None end
+    | _ => None
+    end
+  end.
+Definition show_line (l : rec_line) : string :=
+  match l with
+  | Line p h sz => p ++ String (ascii_of_N 31) (h ++ String (ascii_of_N 31) (show_N sz))
+  | SelfLine p => p ++ String (ascii_of_N 31) (String (ascii_of_N 31) "")
+  end.
+Definition run_wheel (cmd : string) (args : list string) : option (list string) :=
+  if seq cmd "wheelrun" then
+    match args with
+    | [dist_info; ops] =>
+      Some match dec_wops 100000 (match lchars ops with [] => [] | _ => tokens ops end) with
+           | Some o =>
+             let s := wrun wbytes fst snd ZIP_DEFAULT o in
+             [sjoin (String (ascii_of_N 30) "") (map show_line (record_lines wbytes dist_info s));
+              sjoin (String (ascii_of_N 30) "") (map (fun m => m_path m ++ String (ascii_of_N 31) (show_N (m_mode m))) (members s))]
+           | None => ["baddecoding"] end
+    | _ => None end
+  else if seq cmd "nfp" then
+    Some (map (fun a => match read_N (lchars a) with Some m => show_N (normalize_file_permissions m) | None => "bad" end) args)
+  else if seq cmd "pyint" then
+    Some (map (fun a => match py_int a with
+                        | Some z => (if Z.ltb z 0 then "-" else "") ++ show_N (Z.abs_N z)
+                        | None => "None" end) args)
+  else None.
+
+(* ---------------- file selection ---------------- *)
+(* paths are '/'-joined; lists of paths are separated by byte 31; includes by byte 30:
+   include = flags "PF" (P package / p plain, F in this format / f not), then elements: "F" path | "D" path n files.. *)
+Definition dec_path (s : string) : path := map str (split_on "/"%char (lchars s)).
+Definition enc_path (p : path) : string := sjoin "/" p.
+Fixpoint dec_elements (fuel : nat) (ts : list string) : option (list element) :=
+  match fuel with
+  | O => None
+  | S f =>
+    match ts with
+    | [] => Some []
+    | tag :: p :: r =>
+      if seq tag "F" then match dec_elements f r with Some es => Some (EFile (dec_path p) :: es) | None => None end
+      else if seq tag "D" then
+        match r with
+        | n :: r' =>
+          match tok_nat n with
+          | Some k => match dec_elements f (skipn k r') with
+                      | Some es => Some (EDir (dec_path p) (map dec_path (firstn k r')) :: es)
+                      | None => None end
+          | None => None end
+        | [] => None end
+      else None
+    | _ => None
+    end
+  end.
+Definition dec_include (s : string) : option include :=
+  match tokens s with
+  | flags :: r =>
+    match dec_elements 100000 r with
+    | Some es => Some (mkInc (existsb (fun c => Ascii.eqb c "P"%char) (lchars flags))
+                             (existsb (fun c => Ascii.eqb c "F"%char) (lchars flags)) es)
+    | None => None end
+  | [] => None
+  end.
+Definition run_select (cmd : string) (args : list string) : option (list string) :=
+  if seq cmd "select" then
+    match args with
+    | excl :: incs =>
+      Some match mapM dec_include incs with
+           | Some is_ =>
+             let ex := match lchars excl with [] => [] | _ => map dec_path (tokens excl) end in
+             map enc_path (find_files_to_add ex is_)
+           | None => ["baddecoding"] end
+    | _ => None end
+  else if seq cmd "is_excluded" then
+    match args with
+    | excl :: ps =>
+      let ex := match lchars excl with [] => [] | _ => map dec_path (tokens excl) end in
+      Some (map (fun p => show_bool (is_excluded ex (dec_path p))) ps)
+    | _ => None end
+  else None.
+
 (* reference specifier semantics (Spec/Specifier.v), validated against packaging by the harness *)
 Definition run_spec (cmd : string) (args : list string) : option (list string) :=
   if seq cmd "spcontains" then
@@ -422,7 +525,13 @@ Definition run (cmd : string) (args : list string) : list string :=
               | Some r => r
               | None => match run_generic cmd args with
                         | Some r => r
-                        | None => match run_marker cmd args with Some r => r | None => ["unknown-command"] end
+                        | None => match run_marker cmd args with
+                                  | Some r => r
+                                  | None => match run_wheel cmd args with
+                                            | Some r => r
+                                            | None => match run_select cmd args with Some r => r | None => ["unknown-command"] end
+                                            end
+                                  end
                         end
               end
     end
